@@ -771,11 +771,11 @@ func (s String) RStrip(args Tuple) (Object, error) {
 }
 
 func (s String) Upper() (Object, error) {
-	return String(strings.ToUpper(string(s))), nil
+	return String(upperString(string(s))), nil
 }
 
 func (s String) Lower() (Object, error) {
-	return String(strings.ToLower(string(s))), nil
+	return String(lowerString(string(s))), nil
 }
 
 func (s String) Join(args Tuple) (Object, error) {
